@@ -160,6 +160,22 @@ fn enumerate(args: &Args) {
     let mut sink = Sink::create(&args.str("out", "trace.ndjson"));
     let mut base = World::new();
     let r2 = R2::build_funded(&mut base, 2);
+    // spare recorded balance on both sides of every two-token market (position collateral), so that an
+    // execution is not stopped by the balance guard only
+    {
+        let mut k = 900u64;
+        for mi in 0..r2.mkts.len() {
+            if r2.mkts[mi].is_pure() {
+                continue;
+            }
+            for (is_long, col_long) in [(true, false), (false, true)] {
+                k += 1;
+                let ct = if col_long { r2.mkts[mi].long } else { r2.mkts[mi].short };
+                let st = r2.flow_position(&mut base, &mut NoRec, &r2.users[1], mi, &nonce(k), true, is_long, col_long, r2.units(ct, 2000), 4000 * 100_000_000_000_000_000_000u128);
+                assert_eq!(st, Some(1), "collateral position must open");
+            }
+        }
+    }
     let mut rec = TraceRec::new(&r2, &mut sink);
     let mut cases = 0usize;
     let mut ctr = 0u64;
@@ -190,6 +206,11 @@ fn enumerate(args: &Args) {
                 let mt = r2.balance(&w, &h_runtime::runtime::spl::ata(&user, &m.market_token)) / 10;
                 // `tin` is the declared final long token of the withdrawal
                 r2.flow_withdrawal(&mut w, &mut rec, &user, cur, &nn, mt, tin, m.short, &path, &[]);
+            }
+            "from2" => {
+                let mt = r2.balance(&w, &h_runtime::runtime::spl::ata(&user, &m.market_token)) / 10;
+                // `tin` is the declared final SHORT token of the withdrawal, `path` its short-side path
+                r2.flow_withdrawal(&mut w, &mut rec, &user, cur, &nn, mt, m.long, tin, &[], &path);
             }
             other => panic!("dir {other}"),
         }
